@@ -68,6 +68,11 @@ type PanicTarget struct {
 	Payload []Val  `json:"payload,omitempty"`
 	NilRcv  bool   `json:"nilrcv,omitempty"`
 	Nested  bool   `json:"nested,omitempty"` // payload's own printing panics: propagates
+	// NestedContained: the payload's own printing panics, but the call
+	// sits inside an enclosing user method, whose printer contains the
+	// propagating panic (as in fmt): the call must not panic; the text
+	// is not judged
+	NestedContained bool `json:"nestedcontained,omitempty"`
 }
 
 // Val is an operand descriptor. Operands are rebuilt from descriptors
